@@ -37,6 +37,12 @@ enum OnError {
     Continue,
     Exit,
     Crash,
+    /// the handler leaves with an exit value that would mean success elsewhere: still a failure here
+    ExitZero,
+    ExitCode,
+    /// results of the handler that are not exit or crash are ignored
+    GoTo,
+    Error,
 }
 
 #[derive(Clone, Debug, PartialEq)]
@@ -230,7 +236,7 @@ fn reference(prog: &[Line], on_error: OnError, tape: &Tape, source: Option<&str>
                                     line: 0,
                                 });
                                 match oe {
-                                    OnError::Exit | OnError::Crash => return Outcome { calls, end: fail(pc) },
+                                    OnError::Exit | OnError::Crash | OnError::ExitZero | OnError::ExitCode => return Outcome { calls, end: fail(pc) },
                                     _ => (),
                                 }
                             }
@@ -322,6 +328,10 @@ impl Rig {
                     calls.borrow_mut().push(Call { cmd: "on_error", args, line: c.line });
                     match on_error {
                         OnError::Exit => CommandResult::Exit(None),
+                        OnError::ExitZero => CommandResult::Exit(Some("0".to_string())),
+                        OnError::ExitCode => CommandResult::Exit(Some("3".to_string())),
+                        OnError::GoTo => CommandResult::GoTo(Some("ignored".to_string()), duckscript::types::command::GoToValue::Line(0)),
+                        OnError::Error => CommandResult::Error("error of the handler".to_string()),
                         OnError::Crash => CommandResult::Crash("handler crashed".to_string()),
                         _ => CommandResult::Continue(Some("ignored".to_string())),
                     }
@@ -483,7 +493,7 @@ pub fn worker(w: &mut Worker) {
     let nmax = tier.pick(3usize, 4usize);
     let (devs, horizon) = tier.pick((2usize, 8usize), (3usize, 8usize));
     let idx: Vec<usize> = (0..forms.len()).collect();
-    let configs = [OnError::Absent, OnError::Continue, OnError::Exit, OnError::Crash];
+    let configs = [OnError::Absent, OnError::Continue, OnError::Exit, OnError::Crash, OnError::ExitZero, OnError::ExitCode, OnError::GoTo, OnError::Error];
     let rigs: Vec<Rig> = configs.iter().map(|c| Rig::new(*c)).collect();
     let _ = std::fs::create_dir_all(&w.scratch);
     let file = w.scratch.join("c03.ds");
@@ -622,6 +632,10 @@ pub fn replay(case: &Value) -> Result<String, String> {
         "Continue" => OnError::Continue,
         "Exit" => OnError::Exit,
         "Crash" => OnError::Crash,
+        "ExitZero" => OnError::ExitZero,
+        "ExitCode" => OnError::ExitCode,
+        "GoTo" => OnError::GoTo,
+        "Error" => OnError::Error,
         _ => OnError::Absent,
     };
     let decided: Vec<(Key, u16)> = case["decided"]
@@ -653,7 +667,7 @@ pub fn crash_sig(_case: &Value, kind: &str) -> String {
     kind.to_string()
 }
 
-pub const RULE: &str = "programs: every sequence of 1..n lines over 15 line forms (a pre-processor line `!print -`, `x =` and `:a x =`, and label none/:a/:b x {no command, `k p ${x}`, `x = k p ${x}`, unknown command `nope p`}), duplicates of labels included; configurations: on_error command absent / continuing / exiting / crashing, script as text and (small programs) as file; answers: at every invocation of the scripted command k one of 18 results (Continue with/without value, Continue after removing the registered on_error command / registering one where there is none, Continue after registering / removing the command `nope` that other lines use, GoTo label :a/:b/undefined, GoTo line 0/n/n+5, Error with plain message / message containing ${x}, Crash, Exit none/0/3/-1/abc), explored with a bounded number of deviations from the default answer within a horizon of choice points. Every execution of the real runner is compared with the abstract machine run on the same answers: sequence of invocations with bound arguments and the `line` each command sees, on_error arguments (message, 1-based line, source) and the value the handler finds in the output variable when it runs, final variables, success or failure with source line and file. Scale cases: programs of 300/3000 (thorough 100000) lines with a far forward jump by label over unknown commands, a jump past the end, far backward jumps by label and by line, errors on the first and last line. evaluations = programs x configurations; transitions = executions; states = distinct (calls, outcome, deviations) classes";
+pub const RULE: &str = "programs: every sequence of 1..n lines over 15 line forms (a pre-processor line `!print -`, `x =` and `:a x =`, and label none/:a/:b x {no command, `k p ${x}`, `x = k p ${x}`, unknown command `nope p`}), duplicates of labels included; configurations: on_error command absent / continuing / exiting / crashing, script as text and (small programs) as file; answers: at every invocation of the scripted command k one of 18 results (Continue with/without value, Continue after removing the registered on_error command / registering one where there is none, Continue after registering / removing the command `nope` that other lines use, GoTo label :a/:b/undefined, GoTo line 0/n/n+5, Error with plain message / message containing ${x}, Crash, Exit none/0/3/-1/abc), explored with a bounded number of deviations from the default answer within a horizon of choice points. Every execution of the real runner is compared with the abstract machine run on the same answers: sequence of invocations with bound arguments and the `line` each command sees, on_error arguments (message, 1-based line, source) and the value the handler finds in the output variable when it runs, final variables, success or failure with source line and file. Scale cases: programs of 300/3000 (thorough 100000) lines with a far forward jump by label over unknown commands, a jump past the end, far backward jumps by label and by line, errors on the first and last line. evaluations = programs x configurations; transitions = executions; states = distinct (calls, outcome, deviations) classes. on_error configurations: absent, continuing, exit (no value, 0, 3), crash, goto and error results of the handler (only exit and crash fail the run)";
 pub const ASSUMPTIONS: &[&str] = &["a line with an output variable and no command (`x =`) is a continue result without a value: that is what the public run_instruction returns for it, so the variable is deleted", "error messages are compared only through the on_error arguments; failures are compared by line and source file"];
 pub const EXHAUSTIVE: bool = true;
 pub const WALL_CAP_S: (u64, u64) = (55, 1500);
